@@ -26,6 +26,9 @@ PROPS = {
              "oracle_prefix": "o_rd"},
             {"name": "o_rd", "module": "rd", "quick": 3000, "thorough": 60000, "kind": "oracle",
              "profiles": ["debug"], "args": {"prefix": "o_rd"}},
+            # the parsers' own constructors (from_read / from_boxed_dyn_read / from_buf_reader with leftovers)
+            {"name": "o_c01", "module": "pa", "quick": 2000, "thorough": 20000, "kind": "oracle", "profiles": ["debug"],
+             "args": {"kind": "chunk"}},
         ],
         "rule": "random sources (short reads, Interrupted, EOF/error at any offset, BufReader leftovers) x random histories over the "
                 "whole reader API with small chunk sizes so that realign/shrink happen; non-trivial = more than 4 source bytes and "
@@ -82,5 +85,49 @@ PROPS = {
                          "admissible buffering answer",
         "assumes": ["num_traits overflowing_mul/add/sub and from_u32/from_i32 as modelled in Text.v (wrap + exact-range flag)",
                     "signed_ascii_digits is modelled for signed types (for unsigned types '-d' underflows: Crash POverflow in the model)"],
+    },
+    "C01": {
+        "streams": [
+            {"name": "pa", "module": "pam", "quick": 2500, "thorough": 40000, "profiles": ["debug", "release"],
+             "oracle_prefix": "o_c01"},
+            {"name": "o_c01", "module": "pa", "quick": 4000, "thorough": 60000, "kind": "oracle", "profiles": ["debug", "release"],
+             "args": {"kind": "chunk"}},
+        ],
+        "rule": "grammar-generated and mutated documents for all seven parsers x literal types x ignore_header / "
+                "ignore_unknown_lines x schedules (one-shot, one byte per read, random sizes, Interrupted-interleaved) x chunk sizes "
+                "{1,2,3,7,8,9,64,16384} x constructors (from_read, from_boxed_dyn_read, from_buf_reader with leftovers); "
+                "non-trivial = document of at least 8 bytes; distinct by case text",
+        "theorems_note": "Props/C01.v: simulation theorem (every concrete run under every schedule/chunk size is an admissible abstract "
+                         "run on the source's stream), chunking independence for answer-insensitive programs, instance for the SWAR "
+                         "scanner; parser-level insensitivity of the DIMACS programs is validated by the pa correspondence stream, "
+                         "AIGER/BTOR2 by the implementation-only oracle (partial)",
+        "assumes": ["honest sources (Read contract kept), chunk size >= 1, sizes < 2^62"],
+    },
+    "C14": {
+        "streams": [
+            {"name": "rd_panics", "module": "rd", "quick": 3000, "thorough": 60000, "profiles": ["debug", "release"],
+             "oracle_prefix": "o_rd", "args": {"panics": True}},
+            {"name": "o_rd_panics", "module": "rd", "quick": 3000, "thorough": 60000, "kind": "oracle", "profiles": ["debug"],
+             "args": {"panics": True, "prefix": "o_rd"}},
+            {"name": "wr", "module": "wr", "quick": 1500, "thorough": 20000, "profiles": ["debug", "release"], "oracle_prefix": "o_wr"},
+            {"name": "tx_digits", "module": "tx", "quick": 2000, "thorough": 20000, "profiles": ["debug"], "args": {"kind": "digits"}},
+        ],
+        "rule": "reader histories extended with advance/advance_with_buf beyond the buffered length (panic caught, history "
+                "continues) and sources claiming more bytes than the slice; writer histories with buffer-boundary integers; "
+                "debug build = debug assertions on the unchecked accesses; non-trivial as for C02/C11",
+        "theorems_note": "Props/C14.v: no modelled unchecked access leaves the buffer (reader: any source incl. lying ones, any history "
+                         "incl. caught panics; writer: any history/sink), window = delivered-unconsumed bytes after any history",
+        "assumes": ["index arithmetic relative to the modelled Vec length/capacity; what hardware does on a real out-of-bounds "
+                    "access is outside the model (partial)"],
+    },
+    "C10": {
+        "streams": [
+            {"name": "o_c10", "module": "c10", "quick": 0, "thorough": 0, "kind": "oracle", "profiles": ["release"]},
+            {"name": "rd", "module": "rd", "quick": 1500, "thorough": 20000, "profiles": ["debug"], "oracle_prefix": "o_rd"},
+        ],
+        "rule": "cnf and btor2 inputs of N lines generated on the fly (quick: up to 150 kB, thorough: 4 MB per case) x chunk sizes "
+                "{1,3,64,4096,16384} x read sizes x item sizes {20,300,5000}; counting global allocator; every case is non-trivial",
+        "theorems_note": "Props/C10.v: reader buffer length <= 3*chunk + window for every history, independent of bytes consumed",
+        "assumes": ["Vec capacity policy, shrink_to_fit and allocator overhead are runtime behaviour: measured, not proved (partial)"],
     },
 }
